@@ -173,6 +173,17 @@ pub enum Event {
         /// copying receivers only; C17 / C04 runs). The verdict is not judged then.
         #[serde(default)]
         oversize: usize,
+        /// the caller's message buffer has the ORIGINAL message's length whatever arrived
+        /// on the wire (fixed-size records); classic copying receivers only. Judged normally.
+        #[serde(default)]
+        orig_buf: bool,
+        /// the caller's message buffer starts this many bytes past an 8-byte boundary
+        #[serde(default)]
+        mis: u8,
+        /// the caller's message buffer still holds the ORIGINAL ciphertext body (staged there
+        /// earlier) instead of a constant fill: what a truncation cut off is still in the buffer
+        #[serde(default)]
+        residue: bool,
     },
     /// A malicious sender whose public key (or sealed-box ephemeral key) is a
     /// small-order point: the shared secret is all-zero for every recipient, so
@@ -219,6 +230,8 @@ pub struct BoxWorld {
     err_texts: std::collections::BTreeMap<(String, usize, usize), String>,
     /// extra bytes appended to the caller's message buffer for the delivery in flight
     oversize: std::cell::Cell<usize>,
+    /// (orig_buf, mis, residue) of the delivery in flight
+    bufcfg: std::cell::Cell<(bool, u8, bool)>,
 }
 
 pub fn install_rng(seed: u64) {
@@ -230,6 +243,8 @@ pub fn uninstall_rng() {
     dryoc::rng::verif::set_source(None);
 }
 
+/// fill of output buffers handed to sealing functions
+const DIRTY: u8 = 0x5A;
 const SENTINEL: u8 = 0xC3;
 
 pub fn sender_forms(suite: Suite) -> &'static [SForm] {
@@ -327,13 +342,13 @@ impl BoxWorld {
         let plain = pattern(fill, len);
         let mut nonce = [0u8; 24];
         dryoc::rng::copy_randombytes(&mut nonce);
-        let mut mac = [0u8; 16];
-        let mut body = vec![0u8; len];
+        let mut mac = [DIRTY; 16];
+        let mut body = vec![DIRTY; len];
         let mut epk = None;
         let s = self.cfg.suite;
         match (s, self.cfg.sform) {
             (Suite::Secretbox, SForm::Easy) => {
-                let mut ct = vec![0u8; len + 16];
+                let mut ct = vec![DIRTY; len + 16]; // a re-used (dirty) output buffer
                 crypto_secretbox_easy(&mut ct, &plain, &nonce, &self.sb_key).expect("seal");
                 mac.copy_from_slice(&ct[..16]);
                 body.copy_from_slice(&ct[16..]);
@@ -367,7 +382,7 @@ impl BoxWorld {
                 body = d;
             }
             (Suite::Box, SForm::Easy) => {
-                let mut ct = vec![0u8; len + 16];
+                let mut ct = vec![DIRTY; len + 16]; // a re-used (dirty) output buffer
                 crypto_box_easy(&mut ct, &plain, &nonce, &self.b_pk, &self.a_sk).expect("seal");
                 mac.copy_from_slice(&ct[..16]);
                 body.copy_from_slice(&ct[16..]);
@@ -415,7 +430,7 @@ impl BoxWorld {
                 body.copy_from_slice(&v[16..]);
             }
             (Suite::Sealed, SForm::Seal) => {
-                let mut ct = vec![0u8; len + 48];
+                let mut ct = vec![DIRTY; len + 48]; // a re-used (dirty) output buffer
                 crypto_box_seal(&mut ct, &plain, &self.b_pk).expect("seal");
                 let mut e = [0u8; 32];
                 e.copy_from_slice(&ct[..32]);
@@ -616,6 +631,21 @@ impl BoxWorld {
         let mut obs: Option<C17Obs> = None;
         let mut err_text: Option<String> = None;
         let extra = self.oversize.get();
+        let (orig_buf, mis, residue) = self.bufcfg.get();
+        let orig_len = p.plain.len();
+        let orig_body = p.body.clone();
+        // the caller's message buffer: `wire_n` bytes as computed from what arrived (plus the
+        // oversize), or the original message's length; placed `mis` bytes past an 8-byte boundary
+        let mk = move |wire_n: usize, extra: usize| -> (Vec<u8>, std::ops::Range<usize>) {
+            let n = if orig_buf { orig_len } else { wire_n + extra };
+            let mut backing = vec![SENTINEL; n + 16];
+            let off = (8 - backing.as_ptr() as usize % 8) % 8 + mis as usize;
+            if residue {
+                let k = n.min(orig_body.len());
+                backing[off..off + k].copy_from_slice(&orig_body[..k]);
+            }
+            (backing, off..off + n)
+        };
         let a_pk = d.peer_pk;
         let b_pk = self.b_pk;
         let b_sk = self.b_sk;
@@ -623,18 +653,20 @@ impl BoxWorld {
         let r = guarded(|| -> Option<Vec<u8>> {
             match (suite, rf) {
                 (Suite::Secretbox, RForm::OpenEasy) => {
-                    let mut m = vec![SENTINEL; d.combined.len().saturating_sub(16) + extra];
-                    let before = m.clone();
-                    let r = crypto_secretbox_open_easy(&mut m, &d.combined, &d.nonce, &d.key);
-                    obs = Some(C17Obs { before, after: m.clone(), ok: r.is_ok() });
-                    r.map_err(|e| { err_text = Some(format!("{:?}", e)); e }).ok().map(|_| m)
+                    let (mut bk, rg) = mk(d.combined.len().saturating_sub(16), extra);
+                    let m = &mut bk[rg];
+                    let before = m.to_vec();
+                    let r = crypto_secretbox_open_easy(&mut *m, &d.combined, &d.nonce, &d.key);
+                    obs = Some(C17Obs { before, after: m.to_vec(), ok: r.is_ok() });
+                    r.map_err(|e| { err_text = Some(format!("{:?}", e)); e }).ok().map(|_| m.to_vec())
                 }
                 (Suite::Secretbox, RForm::OpenDetached) => {
-                    let mut m = vec![SENTINEL; d.body.len() + extra];
-                    let before = m.clone();
-                    let r = crypto_secretbox_open_detached(&mut m, &d.mac, &d.body, &d.nonce, &d.key);
-                    obs = Some(C17Obs { before, after: m.clone(), ok: r.is_ok() });
-                    r.map_err(|e| { err_text = Some(format!("{:?}", e)); e }).ok().map(|_| m)
+                    let (mut bk, rg) = mk(d.body.len(), extra);
+                    let m = &mut bk[rg];
+                    let before = m.to_vec();
+                    let r = crypto_secretbox_open_detached(&mut *m, &d.mac, &d.body, &d.nonce, &d.key);
+                    obs = Some(C17Obs { before, after: m.to_vec(), ok: r.is_ok() });
+                    r.map_err(|e| { err_text = Some(format!("{:?}", e)); e }).ok().map(|_| m.to_vec())
                 }
                 (Suite::Secretbox, RForm::OpenEasyInplace) => {
                     let mut m = d.combined.clone();
@@ -682,18 +714,20 @@ impl BoxWorld {
                     b.unseal::<_, _, Vec<u8>>(&kp).ok()
                 }
                 (Suite::Box, RForm::OpenEasy) => {
-                    let mut m = vec![SENTINEL; d.combined.len().saturating_sub(16) + extra];
-                    let before = m.clone();
-                    let r = crypto_box_open_easy(&mut m, &d.combined, &d.nonce, &a_pk, &b_sk);
-                    obs = Some(C17Obs { before, after: m.clone(), ok: r.is_ok() });
-                    r.map_err(|e| { err_text = Some(format!("{:?}", e)); e }).ok().map(|_| m)
+                    let (mut bk, rg) = mk(d.combined.len().saturating_sub(16), extra);
+                    let m = &mut bk[rg];
+                    let before = m.to_vec();
+                    let r = crypto_box_open_easy(&mut *m, &d.combined, &d.nonce, &a_pk, &b_sk);
+                    obs = Some(C17Obs { before, after: m.to_vec(), ok: r.is_ok() });
+                    r.map_err(|e| { err_text = Some(format!("{:?}", e)); e }).ok().map(|_| m.to_vec())
                 }
                 (Suite::Box, RForm::OpenDetached) => {
-                    let mut m = vec![SENTINEL; d.body.len() + extra];
-                    let before = m.clone();
-                    let r = crypto_box_open_detached(&mut m, &d.mac, &d.body, &d.nonce, &a_pk, &b_sk);
-                    obs = Some(C17Obs { before, after: m.clone(), ok: r.is_ok() });
-                    r.map_err(|e| { err_text = Some(format!("{:?}", e)); e }).ok().map(|_| m)
+                    let (mut bk, rg) = mk(d.body.len(), extra);
+                    let m = &mut bk[rg];
+                    let before = m.to_vec();
+                    let r = crypto_box_open_detached(&mut *m, &d.mac, &d.body, &d.nonce, &a_pk, &b_sk);
+                    obs = Some(C17Obs { before, after: m.to_vec(), ok: r.is_ok() });
+                    r.map_err(|e| { err_text = Some(format!("{:?}", e)); e }).ok().map(|_| m.to_vec())
                 }
                 (Suite::Box, RForm::OpenEasyInplace) => {
                     let mut m = d.combined.clone();
@@ -710,11 +744,12 @@ impl BoxWorld {
                     r.map_err(|e| { err_text = Some(format!("{:?}", e)); e }).ok().map(|_| m)
                 }
                 (Suite::Box, RForm::OpenDetachedAfternm) => {
-                    let mut m = vec![SENTINEL; d.body.len() + extra];
-                    let before = m.clone();
-                    let r = crypto_box_open_detached_afternm(&mut m, &d.mac, &d.body, &d.nonce, &d.key);
-                    obs = Some(C17Obs { before, after: m.clone(), ok: r.is_ok() });
-                    r.map_err(|e| { err_text = Some(format!("{:?}", e)); e }).ok().map(|_| m)
+                    let (mut bk, rg) = mk(d.body.len(), extra);
+                    let m = &mut bk[rg];
+                    let before = m.to_vec();
+                    let r = crypto_box_open_detached_afternm(&mut *m, &d.mac, &d.body, &d.nonce, &d.key);
+                    obs = Some(C17Obs { before, after: m.to_vec(), ok: r.is_ok() });
+                    r.map_err(|e| { err_text = Some(format!("{:?}", e)); e }).ok().map(|_| m.to_vec())
                 }
                 (Suite::Box, RForm::OpenDetachedAfternmInplace) => {
                     let mut m = d.body.clone();
@@ -737,11 +772,12 @@ impl BoxWorld {
                     b.precalc_decrypt_to_vec(&d.nonce.into(), &k).map_err(|e| { err_text = Some(format!("{:?}", e)); e }).ok()
                 }
                 (Suite::Sealed, RForm::SealOpen) => {
-                    let mut m = vec![SENTINEL; d.combined.len().saturating_sub(48)];
-                    let before = m.clone();
-                    let r = crypto_box_seal_open(&mut m, &d.combined, &b_pk, &b_sk);
-                    obs = Some(C17Obs { before, after: m.clone(), ok: r.is_ok() });
-                    r.map_err(|e| { err_text = Some(format!("{:?}", e)); e }).ok().map(|_| m)
+                    let (mut bk, rg) = mk(d.combined.len().saturating_sub(48), 0);
+                    let m = &mut bk[rg];
+                    let before = m.to_vec();
+                    let r = crypto_box_seal_open(&mut *m, &d.combined, &b_pk, &b_sk);
+                    obs = Some(C17Obs { before, after: m.to_vec(), ok: r.is_ok() });
+                    r.map_err(|e| { err_text = Some(format!("{:?}", e)); e }).ok().map(|_| m.to_vec())
                 }
                 (Suite::Sealed, RForm::ObjFromSealedBytesUnseal) => {
                     let b: DryocBox<dryoc::dryocbox::PublicKey, dryoc::dryocbox::Mac, Vec<u8>> = DryocBox::from_sealed_bytes(&d.combined).map_err(|e| { err_text = Some(format!("{:?}", e)); e }).ok()?;
@@ -852,7 +888,7 @@ impl World for BoxWorld {
         let sb_key = crypto_secretbox_keygen();
         let (a_pk, a_sk) = crypto_box_keypair();
         let (b_pk, b_sk) = crypto_box_keypair();
-        BoxWorld { cfg: cfg.clone(), sb_key, a_pk, a_sk, b_pk, b_sk, packets: Vec::new(), plan: Vec::new(), planned: false, err_texts: std::collections::BTreeMap::new(), oversize: std::cell::Cell::new(0) }
+        BoxWorld { cfg: cfg.clone(), sb_key, a_pk, a_sk, b_pk, b_sk, packets: Vec::new(), plan: Vec::new(), planned: false, err_texts: std::collections::BTreeMap::new(), oversize: std::cell::Cell::new(0), bufcfg: std::cell::Cell::new((false, 0, false)) }
     }
 
     fn next_event(&mut self, rng: &mut Rng) -> Option<Event> {
@@ -879,7 +915,9 @@ impl World for BoxWorld {
             }
             let overhead = if self.cfg.suite == Suite::Sealed { 48 } else { 16 };
             for slot in 0..self.cfg.packets {
-                plan.push(Event::Deliver { slot, fault: Fault::None, oversize: 0 });
+                let classic = self.cfg.rform.classic();
+                let draw_mis = |rng: &mut Rng| -> u8 { if classic && rng.chance(1, 3) { 1 + rng.below(7) as u8 } else { 0 } };
+                plan.push(Event::Deliver { slot, fault: Fault::None, oversize: 0, orig_buf: false, mis: draw_mis(rng), residue: false });
                 if !self.cfg.fault_free {
                     let nf = 1 + rng.usize_below(5);
                     for _ in 0..nf {
@@ -930,10 +968,14 @@ impl World for BoxWorld {
                             }
                         };
                         let oversize = if (c04 || self.cfg.prop == "C17") && self.cfg.rform.classic() && rng.chance(1, 6) { 1 + rng.usize_below(32) } else { 0 };
-                        plan.push(Event::Deliver { slot, fault: f, oversize });
+                        // fixed-size records: the caller sized its buffer for the message it expects,
+                        // not from the (tampered) wire length
+                        let orig_buf = oversize == 0 && classic && matches!(f, Fault::Truncate { .. } | Fault::Extend { .. } | Fault::Garbage { .. } | Fault::Splice { .. }) && rng.chance(1, 3);
+                        let residue = classic && (orig_buf || oversize > 0) && matches!(f, Fault::Truncate { .. }) && rng.chance(1, 2);
+                        plan.push(Event::Deliver { slot, fault: f, oversize, orig_buf, mis: draw_mis(rng), residue });
                     }
                     // faults stop: the genuine tuple must still open
-                    plan.push(Event::Deliver { slot, fault: Fault::None, oversize: 0 });
+                    plan.push(Event::Deliver { slot, fault: Fault::None, oversize: 0, orig_buf: false, mis: draw_mis(rng), residue: false });
                 }
             }
             if !self.cfg.fault_free && self.cfg.suite != Suite::Secretbox && !self.cfg.rform.uses_symmetric_key(self.cfg.suite) && rng.chance(1, 3) {
@@ -1015,11 +1057,21 @@ impl World for BoxWorld {
                     }
                 }
             }
-            Event::Deliver { slot, fault, oversize } => {
+            Event::Deliver { slot, fault, oversize, orig_buf, mis, residue } => {
                 if self.packets.is_empty() {
                     return; // nothing on the channel (minimised run): no-op
                 }
                 self.oversize.set(*oversize);
+                self.bufcfg.set((*orig_buf, *mis % 8, *residue));
+                if *residue {
+                    out.fault("buffer.holds_original_ciphertext");
+                }
+                if *orig_buf {
+                    out.fault("buffer.original_length");
+                }
+                if *mis % 8 != 0 {
+                    out.fault("buffer.misaligned");
+                }
                 let p = self.packets[slot % self.packets.len()].clone();
                 let d = self.corrupt(&p, fault, out);
                 let identical = self.identical(&p, &d);
@@ -1074,11 +1126,15 @@ impl World for BoxWorld {
                         format!("largest single allocation during the call was {} bytes for a {}-byte delivery (bound {})", peak, wire_len, bound),
                     );
                 }
-                // ---- C02: accept iff identical (not judged when the caller's buffer is oversize:
-                // whether an oversize buffer is served or refused is the implementation's choice)
+                // ---- C02: accept iff identical (an identical delivery is not judged when the caller's
+                // buffer is oversize: whether an oversize buffer is served or refused is the
+                // implementation's choice; a corrupted delivery must be refused whatever the buffer)
                 let accepted = matches!(&res, Ok(Some(_)));
                 if *oversize > 0 {
                     out.fault("oversize.buffer");
+                }
+                if identical && *oversize > 0 {
+                    out.probe("deliver.identical.oversize_not_judged");
                 } else if identical {
                     out.probe("deliver.identical");
                     let good = matches!(&res, Ok(Some(m)) if *m == p.plain);
@@ -1119,7 +1175,7 @@ impl World for BoxWorld {
                     };
                     // the error may legitimately mention the length of everything the caller passed,
                     // including its (possibly oversize) message buffer
-                    let key = (format!("{}+{}", fk, *oversize), d.combined.len(), d.body.len());
+                    let key = (format!("{}+{}{}", fk, *oversize, if *orig_buf { "+orig" } else { "" }), d.combined.len(), d.body.len());
                     match self.err_texts.get(&key) {
                         Some(prev) if prev != t => {
                             out.violate(
@@ -1172,36 +1228,48 @@ impl World for BoxWorld {
                 }
                 v
             }
-            Event::Deliver { slot, fault, oversize } => {
+            Event::Deliver { slot, fault, oversize, orig_buf, mis, residue } => {
+                let residue = *residue;
                 let oversize = *oversize;
+                let orig_buf = *orig_buf;
+                let mis = *mis;
                 let mut v = Vec::new();
+                if mis > 0 {
+                    v.push(Event::Deliver { slot: *slot, fault: fault.clone(), oversize, orig_buf, mis: 0, residue });
+                    if mis > 1 {
+                        v.push(Event::Deliver { slot: *slot, fault: fault.clone(), oversize, orig_buf, mis: 1, residue });
+                    }
+                }
+                if orig_buf {
+                    v.push(Event::Deliver { slot: *slot, fault: fault.clone(), oversize, orig_buf: false, mis, residue });
+                }
                 if oversize > 1 {
-                    v.push(Event::Deliver { slot: *slot, fault: fault.clone(), oversize: 1 });
+                    v.push(Event::Deliver { slot: *slot, fault: fault.clone(), oversize: 1, orig_buf, mis, residue });
                 }
                 if *slot > 0 {
-                    v.push(Event::Deliver { slot: 0, fault: fault.clone(), oversize });
+                    v.push(Event::Deliver { slot: 0, fault: fault.clone(), oversize, orig_buf, mis, residue });
                 }
                 match fault {
                     Fault::Flip { comp, bit } if *bit > 0 => {
-                        v.push(Event::Deliver { slot: *slot, fault: Fault::Flip { comp: *comp, bit: 0 }, oversize });
-                        v.push(Event::Deliver { slot: *slot, fault: Fault::Flip { comp: *comp, bit: bit / 2 }, oversize });
+                        v.push(Event::Deliver { slot: *slot, fault: Fault::Flip { comp: *comp, bit: 0 }, oversize, orig_buf, mis, residue });
+                        v.push(Event::Deliver { slot: *slot, fault: Fault::Flip { comp: *comp, bit: bit / 2 }, oversize, orig_buf, mis, residue });
                     }
                     Fault::Truncate { k } if *k > 1 => {
-                        v.push(Event::Deliver { slot: *slot, fault: Fault::Truncate { k: 1 }, oversize });
-                        v.push(Event::Deliver { slot: *slot, fault: Fault::Truncate { k: k / 2 }, oversize });
+                        v.push(Event::Deliver { slot: *slot, fault: Fault::Truncate { k: 1 }, oversize, orig_buf, mis, residue });
+                        v.push(Event::Deliver { slot: *slot, fault: Fault::Truncate { k: k / 2 }, oversize, orig_buf, mis, residue });
                     }
                     Fault::Extend { k, fill } if *k > 1 || *fill != 0 => {
-                        v.push(Event::Deliver { slot: *slot, fault: Fault::Extend { k: 1, fill: 0 }, oversize });
-                        v.push(Event::Deliver { slot: *slot, fault: Fault::Extend { k: (k / 2).max(1), fill: *fill }, oversize });
+                        v.push(Event::Deliver { slot: *slot, fault: Fault::Extend { k: 1, fill: 0 }, oversize, orig_buf, mis, residue });
+                        v.push(Event::Deliver { slot: *slot, fault: Fault::Extend { k: (k / 2).max(1), fill: *fill }, oversize, orig_buf, mis, residue });
                     }
                     Fault::Garbage { len, kind } if *len > 0 || *kind != 0 => {
-                        v.push(Event::Deliver { slot: *slot, fault: Fault::Garbage { len: 0, kind: 0 }, oversize });
-                        v.push(Event::Deliver { slot: *slot, fault: Fault::Garbage { len: len / 2, kind: *kind }, oversize });
-                        v.push(Event::Deliver { slot: *slot, fault: Fault::Garbage { len: len.saturating_sub(1), kind: *kind }, oversize });
-                        v.push(Event::Deliver { slot: *slot, fault: Fault::Garbage { len: *len, kind: 0 }, oversize });
+                        v.push(Event::Deliver { slot: *slot, fault: Fault::Garbage { len: 0, kind: 0 }, oversize, orig_buf, mis, residue });
+                        v.push(Event::Deliver { slot: *slot, fault: Fault::Garbage { len: len / 2, kind: *kind }, oversize, orig_buf, mis, residue });
+                        v.push(Event::Deliver { slot: *slot, fault: Fault::Garbage { len: len.saturating_sub(1), kind: *kind }, oversize, orig_buf, mis, residue });
+                        v.push(Event::Deliver { slot: *slot, fault: Fault::Garbage { len: *len, kind: 0 }, oversize, orig_buf, mis, residue });
                     }
                     Fault::Splice { at, n, fill } if *n > 1 => {
-                        v.push(Event::Deliver { slot: *slot, fault: Fault::Splice { at: *at, n: 1, fill: *fill }, oversize });
+                        v.push(Event::Deliver { slot: *slot, fault: Fault::Splice { at: *at, n: 1, fill: *fill }, oversize, orig_buf, mis, residue });
                     }
                     _ => {}
                 }
